@@ -5,6 +5,8 @@
 (* is one batch as decoded by the independent device-side decoder:         *)
 (*   <<[type, plen, hdr | outer/inner/nonce]>> plus the number of transport *)
 (*   writes the batch caused and whether payload bytes were identical.     *)
+(* Events with sig = "pause" / "resume" are flow-control signals of the     *)
+(* transport in between: they must write nothing and change nothing.       *)
 (***************************************************************************)
 EXTENDS Writer, IOUtils
 
@@ -22,6 +24,8 @@ TStep ==
   /\ l <= Len(T.events)
   /\ LET e == T.events[l]
          batch == [i \in 1..Len(e.pk) |-> [type |-> e.pk[i].type, plen |-> e.pk[i].plen]] IN
+       IF e.sig # "" THEN e.writes = 0 /\ FlowSignal      \* pause_writing / resume_writing: nothing is written
+       ELSE
        /\ e.writes = 1                    \* a single transport write per batch
        /\ e.exact = TRUE                  \* payload bytes identical, nothing trailing
        /\ Write(batch)
